@@ -7,16 +7,16 @@ Record case := {
   cop : opk;
   cold : obj;             (* stored object (ignored for create) *)
   cnew : obj;             (* submitted object *)
-  oout : outcome;         (* observed: what rest.BeforeCreate/BeforeUpdate + registered strategy left in the submitted object *)
+  oout : outcome;         (* observed: the object to be STORED, i.e. what the whole rest.BeforeCreate/BeforeUpdate (PrepareFor*, validation, Canonicalize) left *)
   oold : option obj;      (* observed: stored object after the call (updates only) *)
   osub : bool;            (* observed: "<resource>/status" is in the storage map *)
 }.
 
 Definition model_out (k : kind) (op : opk) (old new : obj) : outcome :=
   match op with
-  | OpCreate => before_create (cfg k) new
-  | OpUpdate => before_update_main (cfg k) old new
-  | OpStatus => before_update_status (cfg k) old new
+  | OpCreate => step_create (cfg k) new
+  | OpUpdate => step_update_main (cfg k) old new
+  | OpStatus => step_update_status (cfg k) old new
   end.
 
 Definition outcome_eqb (a b : outcome) : bool :=
